@@ -22,6 +22,8 @@ Fails(e) == CASE e.ev = "setmic" -> SetMicFails(e)
               [] e.ev = "joinmic" -> JoinMicFails(e)
               [] e.ev = "encja" -> EncJAFails(e)
               [] e.ev = "decja" -> DecJAFails(e)
+              [] e.ev = "reset" -> <<>>
+              [] e.ev = "crash" -> <<"C00.crash">>       \* concurrent run: the Go runtime aborted the process
               [] OTHER -> <<"unknown-event">>
 
 Init == l = 1 /\ nfail = 0
